@@ -1,6 +1,7 @@
 import BeffVerif.Props.C07
 import BeffVerif.Props.C07Print
 import BeffVerif.Props.C07Keyof
+import BeffVerif.Props.C07Idx
 open BeffVerif.C07
 #print axioms excluded_numbers_widen_to_number
 #print axioms literal_sets_are_exact
@@ -11,3 +12,4 @@ open BeffVerif.C07
 #print axioms BeffVerif.C07Print.exclude_result_spine_free
 #print axioms BeffVerif.C07Keyof.keyof_flat_object
 #print axioms BeffVerif.C07Keyof.keyof_flat_object_members
+#print axioms BeffVerif.C07Idx.idx_declared_key
